@@ -1,10 +1,10 @@
 SPECIFICATION Spec
 CONSTANTS
-  Groups = {"bidstrategy"}
-  Pinned = TRUE
+  Groups = {"dirk"}
+  Pinned = FALSE
   InPlace = FALSE
-  Reuse = FALSE
+  Reuse = TRUE
   MaxPar = 2
 INVARIANTS TypeOK Linearizable Disciplined
-CONSTRAINT Bounded
+CONSTRAINT ReuseProbe
 CHECK_DEADLOCK FALSE
